@@ -14,7 +14,8 @@ from props import c11 as _c11
 
 ANCHORS = [("deap/gp.py", ["PrimitiveTree.__str__", "PrimitiveTree.from_string", "Primitive.__init__", "Primitive.format",
                            "Terminal.__init__", "Terminal.format", "PrimitiveSetTyped.renameArguments",
-                           "PrimitiveSetTyped.addTerminal", "PrimitiveSetTyped.addADF", "compile", "compileADF"])]
+                           "PrimitiveSetTyped.addTerminal", "PrimitiveSetTyped.addADF", "compile", "compileADF", "graph",
+                           "mutSemantic", "cxSemantic"])]
 LEVEL = "partial"
 RULE = ("every primitive set (untyped with 0/1/2 arguments incl. renamed arguments, named terminals (also as the single node "
         "of a zero-argument set), overlapping renamings (swap, 3-cycle, rename onto a freed name), negative constants, anonymous constants equal by == but of different type / sign of zero, "
@@ -25,7 +26,9 @@ RULE = ("every primitive set (untyped with 0/1/2 arguments incl. renamed argumen
         "CPython's ast.parse of that source vs PyLang.parseExpr, the compiled callable vs PyLang.evalSrc of that source and vs evalTree on an argument grid + random values, "
         "re.split tokens vs tokens, from_string(str(t)) vs fromString; ADF individuals through the source texts (pyadf), a parent followed by an offspring that differs in one "
         "ADF branch; generated and randomly edited texts of the expression sub-language (every literal form, odd spacing, edge texts) against CPython's parser and evaluator; "
-        "hand-made strings for the tokenizer / type checks of from_string. Non-trivial = distinct tree with more than one node")
+        "hand-made strings for the tokenizer / type checks of from_string; gp.graph(tree) (nodes, edges in emission order, labels) on the trees of every set; "
+        "offspring of mutSemantic / cxSemantic as tree sources (a GSGP set whose `lf` is an exact integer function) and, with the real logistic function, the values of the "
+        "compiled offspring against the model's offspring and against the closed formulas ind + ms*(lf(tr1) - lf(tr2)), tr'*ind1 + (1 - tr')*ind2 evaluated from the parts. Non-trivial = distinct tree with more than one node")
 EXHAUSTIVE = {"quick": False, "thorough": False}
 TIME_BUDGET = {"quick": 50, "thorough": 800}
 TRUSTED = ["CPython's tokenizer, parser and evaluator on the expression sub-language `lambda a,b: f(g(x), -1, 'c')` — Name, Constant, Call, UnaryOp(USub), Lambda — "
@@ -36,7 +39,8 @@ TRUSTED = ["CPython's tokenizer, parser and evaluator on the expression sub-lang
            "repr of int, bool, float and str constants is the text the harness transports (Python's own repr; the model's literal reader is compared with Python on every "
            "printed constant)",
            "str.format with positional fields, re.split with a character class, collections.deque.extendleft",
-           "IEEE-754 double +,-,*,< are the same operations in Lean's Float (float-typed trees)"]
+           "IEEE-754 double +,-,*,/,< are the same operations in Lean's Float (float-typed trees); math.exp and Lean's Float.exp agree to 1e-9 relative "
+           "(semden stream only, compared with a tolerance)"]
 ASSUMPTIONS = ["node texts (primitive names, argument names, named terminals, reprs of constants) are non-empty and contain no "
                "separator character ` \\t\\n\\r\\f\\v(),` — ints, floats, bools, identifiers, strings without those characters",
                "SrcOK / ArgsOK (hypotheses of parse_compileSrc, evaluated by the driver on every compiled tree): primitive, argument and terminal names are ASCII identifiers "
@@ -140,7 +144,13 @@ def f_width(a):
     return len(str(a))
 
 
-OPID = {f_concat: "concat", f_rev: "rev", f_upper: "upper", f_pick: "pick", f_width: "width", f_dbl: "dbl", f_five: "five", f_add: "add", f_sub: "sub", f_mul: "mul", f_neg: "neg", f_max2: "max2", f_max3: "max3", f_ite: "ite",
+def f_lf(x):
+    """the logistic function of the GSGP operators"""
+    import math
+    return 1 / (1 + math.exp(-x))
+
+
+OPID = {f_lf: "lf", f_concat: "concat", f_rev: "rev", f_upper: "upper", f_pick: "pick", f_width: "width", f_dbl: "dbl", f_five: "five", f_add: "add", f_sub: "sub", f_mul: "mul", f_neg: "neg", f_max2: "max2", f_max3: "max3", f_ite: "ite",
         f_lt: "lt", f_and: "and", f_not: "not", f_id: "id"}
 
 
@@ -466,7 +476,18 @@ def b_tw():
     return PS("tw", p)
 
 
-BUILDERS = {"us": b_us, "ts": b_ts, "tw": b_tw, "u2": b_u2, "u2r": b_u2r, "u0": b_u0, "u1": b_u1,
+def b_ug():
+    # a GSGP vocabulary (lf, mul, add, sub) for the semantic operators; `lf` is bound to an exact integer function here
+    return untyped("ug", 2, [(f_add, 2, "add"), (f_sub, 2, "sub"), (f_mul, 2, "mul"), (f_dbl, 1, "lf"), (f_neg, 1, "neg")],
+                   [1, -1], [("three", 3)])
+
+
+def b_ugl():
+    # the same with the real logistic function (semden stream only: values go through exp)
+    return untyped("ugl", 2, [(f_add, 2, "add"), (f_sub, 2, "sub"), (f_mul, 2, "mul"), (f_lf, 1, "lf")], [1, -1, 2], eph=False)
+
+
+BUILDERS = {"ug": b_ug, "us": b_us, "ts": b_ts, "tw": b_tw, "u2": b_u2, "u2r": b_u2r, "u0": b_u0, "u1": b_u1,
             "ti": lambda: typed("ti", [int, float], int),
             "tf": lambda: typed("tf", [float, int, bool], float, rename={"ARG2": "flag", "ARG0": "a"}),
             "tb": lambda: typed("tb", [], bool),
@@ -474,6 +495,7 @@ BUILDERS = {"us": b_us, "ts": b_ts, "tw": b_tw, "u2": b_u2, "u2r": b_u2r, "u0": 
             "u2m": b_u2m, "u2s": b_u2s, "u3c": b_u3c, "u3f": b_u3f}
 PSNAMES = sorted(BUILDERS)
 BUILDERS["u2x"] = b_u2x
+BUILDERS["ugl"] = b_ugl
 _cache = {}
 
 
@@ -576,6 +598,13 @@ def make_tree(pset, g):
                 t, = gp.mutInsert(t, pset)
             elif op == "muts":
                 t, = gp.mutShrink(t)
+            elif op == "msem":
+                t, = gp.mutSemantic(t, gen_func=gp.genGrow, pset=pset, min=0, max=2,
+                                    **({"ms": random.choice([0.5, 2.0, -1.25])} if random.random() < 0.4 else {}))
+            elif op == "cxsem":
+                o = gp.PrimitiveTree(gp.genHalfAndHalf(pset, 0, 2))
+                a, b = gp.cxSemantic(t, o, gen_func=gp.genGrow, pset=pset, min=0, max=1)
+                t = a if random.random() < 0.6 else b
     finally:
         random.setstate(st)
     return t
@@ -1038,6 +1067,69 @@ def evaluate(d):
         tree = make_tree(ps.pset, d["g"])
         return tree_case(d, ps, tree, rng, "tree")
 
+    if k == "graph":
+        # gp.graph(tree) against the model's stack loop (edges in the order they are appended, labels, node count)
+        ps = get_ps(d["ps"])
+        tree = make_tree(ps.pset, d["g"])
+        nodes, edges, labels = gp.graph(tree)
+        etok = ",".join("%d.%d" % (a, b) for a, b in edges) if edges else "-"
+        try:
+            lt = []
+            for i, n in enumerate(tree):
+                lab = labels[i]
+                if isinstance(n, gp.Primitive) or (isinstance(lab, str) and id(n) in ps.sym):
+                    lt.append(enc(str(lab)))
+                else:
+                    lt.append(enc(repr(lab)))
+            ltok = ",".join(lt) if lt and len(labels) == len(tree) else "labels!"
+        except KeyError:
+            ltok = "labels!"
+        ntok = str(len(nodes)) if list(nodes) == list(range(len(tree))) else "nodes!"
+        return Case(d, ["C12 graph %s" % ps.nodes_tok(tree)], ["%s %s %s" % (etok, ltok, ntok)], None,
+                    tag="graph/%s/%s" % (d["ps"], "ops" if d["g"].get("ops") else "gen"), nontrivial=len(tree) > 1)
+
+    if k == "semden":
+        # what the semantic offspring COMPUTE, with the real logistic function: the compiled offspring (real operator, real
+        # compile) against (i) the model's offspring evaluated by evalTree and (ii) the closed formula evaluated from the
+        # parts; the oracle is the statement: compiled offspring = direct evaluation of its prefix tree
+        ps = get_ps("ugl")
+        pset = ps.pset
+        parts = [make_tree(pset, g) for g in d["gs"]]
+        keep = [gp.PrimitiveTree(list(t)) for t in parts]                 # the operators work in place
+        pieces = ",".join(ps.node_tok(pset.mapping[n]) for n in ("lf", "mul", "add", "sub"))
+        queue = [list(t) for t in (parts[1:] if d["op"] == "mut" else parts[2:])]
+        gen = lambda pset_, mn, mx: queue.pop(0)
+        if d["op"] == "mut":
+            out = list(gp.mutSemantic(parts[0], gen_func=gen, pset=pset, ms=d["ms"]))
+            text = repr(float(d["ms"]))
+        else:
+            out = list(gp.cxSemantic(parts[0], parts[1], gen_func=gen, pset=pset))
+            text = repr(1.0)
+        tuples = [t for t in arg_tuples([int, int], rng, cap=12)]
+        fs = [gp.compile(o, pset) for o in out]
+        cols, orc, ok_tuples = [[] for _ in out], None, []
+        for tup in tuples:
+            try:
+                vals = [f(*tup) for f in fs]
+                wants = [interp(list(o), pset.context, argmap_of(pset, tup), ps.sym) for o in out]
+            except OverflowError:
+                continue                                   # math.exp beyond the double range: outside the model
+            ok_tuples.append(tup)
+            for c, v, w, o in zip(cols, vals, wants, out):
+                c.append(v)
+                if not same_value(v, w) and orc is None:
+                    orc = "compiled %s%r = %r but direct evaluation of the prefix tree gives %r" % (str(o), tup, v, w)
+        if not ok_tuples:
+            return Case(d, [], [], orc, tag="semden/%s/empty" % d["op"], nontrivial=False)
+
+        def ft(v):
+            return "f:%d" % struct.unpack("<Q", struct.pack("<d", v))[0] if isinstance(v, float) else val_tok(v)
+        half = ["," .join(ft(v) for v in c) for c in cols]
+        line = "C12 semden %s %s %s %s %s %s %s %s" % (d["op"], ps.funs_tok(), ps.vars_tok(), ps.args_tok(), pieces,
+                                                     " ".join(ps.nodes_tok(t) for t in keep), encs(text), tuples_tok(ok_tuples))
+        expect = "|".join(half + half)           # the model's offspring, then the closed formulas: same values
+        return Case(d, [line], [expect], orc, tag="semden/%s" % d["op"], nontrivial=True, tol=1e-9)
+
     if k == "adf":
         fam = get_adf(d.get("nmain", 1))
         trees = []
@@ -1359,6 +1451,22 @@ def generate(tier, rng, mult):
                         continue
                     for _ in range(2 if thorough else 1):
                         yield {"k": "tree", "ps": key, "g": gen_desc(rng, mn, mx, mode), "seed": rng.randrange(1 << 30)}
+    # gp.graph on trees of every set; the semantic operators as tree sources and what their offspring compute
+    for i in range((6000 if thorough else 300) * mult):
+        key = PSNAMES[i % len(PSNAMES)]
+        mx = rng.choice([0, 1, 2, 2, 3, 3, 4])
+        yield {"k": "graph", "ps": key, "g": gen_desc(rng, rng.randint(0, mx), mx, rng.choice(["full", "grow", "half"]),
+                                                      nops=rng.choice([0, 0, 1, 2]))}
+    for i in range((4000 if thorough else 200) * mult):
+        mx = rng.choice([0, 1, 2, 2, 3])
+        g = gen_desc(rng, rng.randint(0, mx), mx, rng.choice(["full", "grow", "half"]))
+        g["ops"] = [rng.choice(["msem", "cxsem", "msem", "cxsem", "mutu", "cx", "muts"]) for _ in range(rng.choice([1, 1, 2, 3]))]
+        yield {"k": "tree", "ps": "ug", "g": g, "seed": rng.randrange(1 << 30)}
+    for i in range((4000 if thorough else 200) * mult):
+        op = "mut" if i % 2 == 0 else "cx"
+        gs = [gen_desc(rng, rng.randint(0, 1), rng.choice([1, 2]), rng.choice(["full", "grow"])) for _ in range(3)]
+        yield {"k": "semden", "op": op, "gs": gs, "ms": rng.choice([0.5, 1.0, 0.1, 2.0, -1.5, round(rng.random() * 2, 6)]),
+               "seed": rng.randrange(1 << 30)}
     for _ in range((2000 if thorough else 150) * mult):
         yield {"k": "adf0", "gs": [gen_desc(rng, 1, 2, "full"), gen_desc(rng, 0, 2, "half")],
                "seed": rng.randrange(1 << 30)}
